@@ -59,6 +59,10 @@ CHECKS.update({
  'C12': ('symbolic execution of the real timeutils functions above an integer-microsecond model of datetime: instants, fixed offsets, second counts, override instants and advance amounts are unbounded-range symbolic integers; the statement\'s equations are decided by z3 (linear integer arithmetic)',
          'Whole representable range at microsecond resolution, offsets in (-24h, +24h) incl. non-minute offsets, integer second counts incl. the equality boundary. parse_isotime/ISO strings, named zones, list overrides, fractional seconds and TimeFixture are outside the claim; code that goes through float seconds (timedelta.total_seconds) is not decidable here (int->double conversion of 2^58-size values).'),
 })
+CHECKS.update({
+ 'C16': ('symbolic execution of the real encodeutils functions over opaque texts with uninterpreted codecs (axiom dec(enc(t)) = t, symbolic failure bits, codec names in symbolic letter case) and of to_slug over symbolic strings through the re model and a table model of NFKD folding',
+         'Codec behaviour is uninterpreted (the codecs themselves are outside the claim); to_slug for every string of up to 3 (4) characters over 0x00-0xFF.'),
+})
 NA = {
 }
 def main():
